@@ -430,6 +430,14 @@ def _is_context_store(t, derived: Set[str]) -> bool:
 ALLOWED_ATTRS = {"lines", "header", "header_started", "header_parsed", "tkn_scope", "state", "comment", "hash"}
 
 
+def _header_attrs(prog, fn):
+    """CheckHeader's own state (whatever its attributes are called: R-13.4 owns their discovery), exempt inside check_header.py."""
+    if fn.mod.rel != "rules/check_header.py":
+        return set()
+    from .c13 import header_state_attrs
+    return header_state_attrs(prog)
+
+
 def rule_transparent(run, prog):
     run.rule("R-19.3", "comments and empty lines are transparent at file level: Context.update returns before any scope "
              "store when the last statement is IsEmptyLine / IsComment / IsPreprocessorStatement; IsComment and IsEmptyLine "
@@ -474,7 +482,7 @@ def rule_transparent(run, prog):
                 if isinstance(n, (ast.Assign, ast.AugAssign)):
                     for t in (n.targets if isinstance(n, ast.Assign) else [n.target]):
                         for sub in ([t] + (list(t.elts) if isinstance(t, (ast.Tuple, ast.List)) else [])):
-                            if _is_context_store(sub, derived) and sub.attr not in ALLOWED_ATTRS and not any(n is x for x in st):
+                            if _is_context_store(sub, derived) and sub.attr not in (ALLOWED_ATTRS | _header_attrs(prog, m)) and not any(n is x for x in st):
                                 st.append(n)
             if not st:
                 continue
